@@ -17,7 +17,7 @@ ASSUMPTIONS = [
     "'error while handling a message' is produced by a routing.Device whose message_from_client raises for a marker request (Driver-level value errors are contained since the C12 fixes)",
     "exceptions retrieved-never of send tasks writing to a reset peer are counted, not judged",
 ]
-FAULTS = ("eof", "read-error", "eof-in-message", "junk-then-eof", "handler-exception", "peer-reset", "write-error-then-eof", "write-error-then-reset")
+FAULTS = ("eof", "read-error", "eof-in-message", "junk-then-eof", "handler-exception", "peer-reset", "write-error-then-eof", "write-error-then-reset", "write-side-closed-then-eof")
 POLICY = {0: "Also", 1: "Only", 2: None}
 
 
@@ -143,6 +143,13 @@ class Sess:
                 c["pending_end"] = fault
                 self.pump()
                 return True
+            elif fault == "write-side-closed-then-eof":
+                # phase 1: the outgoing side is already closing (is_closing() is true, writes are dropped) while the
+                # reading side is still open; the connection ends later
+                ep.transport.closing = True
+                c["pending_end"] = "write-error-then-eof"
+                self.pump()
+                return True
         else:
             src = c["src"]
             if fault == "eof":
@@ -159,7 +166,7 @@ class Sess:
                 src.supply("")
             elif fault == "handler-exception":
                 src.supply('<getProperties version="1.7" name="BOOM"/>\n')
-            elif fault in ("peer-reset", "write-error-then-eof", "write-error-then-reset"):
+            elif fault in ("peer-reset", "write-error-then-eof", "write-error-then-reset", "write-side-closed-then-eof"):
                 return False
         self.pump()
         c["ended"] = True
@@ -280,6 +287,13 @@ def run(transport, fault, victim, step, paused=False, second=None, paused_surviv
         for c in conns:
             if c in victims:
                 continue
+            whole = s.output(c)
+            pol0 = c["policy"]
+            if c is not sconn:
+                if pol0 in (None, "Never", "Also") and whole.count("traffic1") != 1:
+                    fails.append(("survivor-lost-traffic", d0, "step %d: surviving connection %s holds %d copies of the text update routed during the script" % (step, c["idx"], whole.count("traffic1"))))
+                if pol0 in ("Also", "Only") and whole.count("YmxvYjE=") != 1:
+                    fails.append(("survivor-lost-traffic", d0 + ",blob", "step %d: surviving connection %s holds %d copies of the BLOB routed during the script" % (step, c["idx"], whole.count("YmxvYjE="))))
             tail = s.output(c)[marks[id(c)] :]
             els, rest = X.split_elements(tail)
             pol = c["policy"]
@@ -346,7 +360,7 @@ def shards(tier, seed):
     sh = []
     for transport in ("tcp", "tty"):
         for fault in FAULTS:
-            if transport == "tty" and fault in ("peer-reset", "write-error-then-eof", "write-error-then-reset"):
+            if transport == "tty" and fault in ("peer-reset", "write-error-then-eof", "write-error-then-reset", "write-side-closed-then-eof"):
                 continue
             sh.append((tier, transport, fault))
     return sh
